@@ -938,7 +938,8 @@ Proof.
   intros S Hm [Ho Hch] Ha. assert (Hq := rs_queue _ _ _ _ S). assert (Hpd := rs_pend _ _ _ _ S). assert (W := rs_wf _ _ _ _ S).
   destruct Ho as [o Hqo Hn|p Hn|p Hn Hr|p q ep Np Nq El De Ed|p q ep Np Nq Hrec El De Sp Hpr Sq Elq
                   |p q ep Np Nq Hrec Hfix El De Sp Hpr Sq Elq|p q ep v Np Nq Hrec El De Sp Hpr Sq Hqr Elq Dv
-                  |p q ep Np Nq El De Hpr Hqr Hupr Hpl].
+                  |p q ep Np Nq El De Hpr Hqr Hupr Hpl|p q ep v Np Nq Hrec Hfix El De Sp Hpr Sq Hqr Elq Dv].
+  9:{ exfalso. destruct Hch as [Sp' _]; [unfold fisdir; now rewrite El | contradiction]. }
   8:{ exfalso. destruct Hch as (Sp & Hrec & _); [unfold fisdir; now rewrite El|]. destruct Hpl as [Hf|[Hs _]]; [congruence | contradiction]. }
   7:{ exfalso. destruct Hch as (_ & _ & Hn); [unfold fisdir; now rewrite El | congruence]. }
   6:{ exfalso. destruct Hch as [Sp' _]; [unfold fisdir; now rewrite El | contradiction]. }
@@ -997,7 +998,8 @@ Proof.
   intros W [Ho Hch] Ha.
   destruct Ho as [o Hqo Hn|p Hn|p Hn Hr|p q ep Np Nq El De Ed|p q ep Np Nq Hrec El De Sp Hpr Sq Elq
                   |p q ep Np Nq Hrec Hfix El De Sp Hpr Sq Elq|p q ep v Np Nq Hrec El De Sp Hpr Sq Hqr Elq Dv
-                  |p q ep Np Nq El De Hpr Hqr Hupr Hpl].
+                  |p q ep Np Nq El De Hpr Hqr Hupr Hpl|p q ep v Np Nq Hrec Hfix El De Sp Hpr Sq Hqr Elq Dv].
+  9:{ exfalso. destruct Hch as [Sp' _]; [unfold fisdir; now rewrite El | contradiction]. }
   8:{ exfalso. destruct Hch as (Sp & Hrec & _); [unfold fisdir; now rewrite El|]. destruct Hpl as [Hf|[Hs _]]; [congruence | contradiction]. }
   7:{ exfalso. destruct Hch as (_ & _ & Hn); [unfold fisdir; now rewrite El | congruence]. }
   6:{ exfalso. destruct Hch as [Sp' _]; [unfold fisdir; now rewrite El | contradiction]. }
